@@ -880,7 +880,13 @@ def seqproto(F, R):
     def plus_one_of_cur(f, i):
         """expression i is (cast of) m_cur_seq + 1"""
         n = f.nodes[i] if i else None
-        while n and n['k'] in ('icast', 'cast', 'paren', 'tmp'): n = f.nodes[n['e']]
+        for _ in range(8):
+            while n and n['k'] in ('icast', 'cast', 'paren', 'tmp'): n = f.nodes[n['e']]
+            if n and n['k'] == 'ref' and n.get('dk') == 'local':      # `char next = m_cur_seq + 1;` used as the stamp
+                defs = [v['init'] for m in f.nodes if m and m['k'] == 'decl' for v in m['vars'] if v['n'] == n['n'] and v.get('hasinit')]
+                asg = [m for m in f.nodes if m and m['k'] == 'asg' and (f.nodes[m['lhs']] or {}).get('n') == n['n']]
+                if len(defs) == 1 and not asg: n = f.nodes[defs[0]]; continue
+            break
         if not (n and n['k'] == 'bin' and n['op'] == '+'): return False
         a, b = n['lhs'], n['rhs']
         def is_cur(x):
